@@ -180,7 +180,20 @@ func newC09World(in c09WorldIn) (*c09World, error) {
 			}
 			vals[i] = types.NewValidator(k.PubKey(), v.P)
 		}
-		set := types.NewValidatorSet(vals)
+		var set *types.ValidatorSet
+		dup, seenV := false, map[string]bool{}
+		for _, v := range vs {
+			dup = dup || seenV[v.V]
+			seenV[v.V] = true
+		}
+		if dup {
+			// the same validator in several slots: NewValidatorSet refuses that, but a set decoded from
+			// the wire (ValidatorSetFromProto / ValidateBasic) is not checked for it -- hand-built,
+			// in the order given
+			set = &types.ValidatorSet{Validators: vals, Proposer: vals[0].Copy()}
+		} else {
+			set = types.NewValidatorSet(vals)
+		}
 		set.TotalVotingPower()
 		w.vsets[name] = set
 		w.vsetName[hex.EncodeToString(set.Hash())] = name
@@ -1241,6 +1254,28 @@ func c09RandomWorld(rng *rand.Rand) (c09WorldIn, int) {
 				Sigs: sigs(in.VSets["Ks"], all(in.VSets["Ks"]), nil), Last: "R" + strconv.Itoa(H-1), Wf: true}
 		}
 	}
+	// duplicate-slot family: the weakest validator of the first set (below the trust level on its
+	// own) listed in as many slots as it would take to pass the trust level of that set if every
+	// slot counted, the commit repeating its precommit per slot
+	{
+		first := in.VSets[setAt[1]]
+		var tot int64
+		for _, v := range first {
+			tot += v.P
+		}
+		wk := first[len(first)-1]
+		k := int(tot/(3*wk.P)) + 1
+		if k < 2 {
+			k = 2
+		}
+		ds := make([]c09Val, k)
+		for i := range ds {
+			ds[i] = c09Val{V: wk.V, P: wk.P}
+		}
+		in.VSets["Ds"] = ds
+		in.Blocks["D"] = c09Block{ID: "D", Hid: "D", H: int64(H), T: int64(10*H + 3), Vh: "Ds", Nvh: "Ds", Vsh: "Ds",
+			Sigs: sigs(ds, all(ds), nil), Last: "R" + strconv.Itoa(H-1), Wf: true}
+	}
 	// a forged header at the top height whose only validator (v9) is in no set of the chain:
 	// it can never reach the trust level of any trusted set
 	mkset("Zs", []string{"v9"}, []int64{1})
@@ -1495,6 +1530,45 @@ func c09RandomRun(rng *rand.Rand, in c09WorldIn, H int) c09Run {
 	return r
 }
 
+// the duplicate-slot forgery D at the top height served by the primary and an accomplice witness
+// (the other witnesses honest or silent), verified from height 1 -- built without the shared
+// random stream
+func c09DupRun(k int, H int) c09Run {
+	honest := func() [][]string {
+		t := make([][]string, H+1)
+		t[0] = []string{"R" + strconv.Itoa(H)}
+		for h := 1; h <= H; h++ {
+			t[h] = []string{"R" + strconv.Itoa(h)}
+		}
+		return t
+	}
+	pt := honest()
+	pt[H], pt[0] = []string{"D"}, []string{"D"}
+	acc := make([][]string, H+1)
+	copy(acc, pt)
+	r := c09Run{Prov: map[string][][]string{"p": pt, "w1": acc}, Primary: "p", Wits: []string{"w1"}, Src: "random:dupslots",
+		Cfg: c09Cfg{Period: int64(10*H + 40), Drift: 5, Num: 1, Den: 3, Mode: "skip"}, Root: 1, RootHid: "R1"}
+	switch k % 3 {
+	case 1:
+		r.Prov["w2"] = honest()
+		r.Wits = []string{"w1", "w2"}
+	case 2:
+		sil := make([][]string, H+1)
+		for h := range sil {
+			sil[h] = []string{"NoResponse"}
+		}
+		r.Prov["w2"] = sil
+		r.Wits = []string{"w2", "w1"}
+	}
+	r.StartSched = append([]string{}, r.Wits...)
+	op, hh := "Verify", int64(H)
+	if k%2 == 1 {
+		op, hh = "Update", 0
+	}
+	r.Steps = []c09Step{{Op: op, H: hh, Now: int64(10*H + 6), Sched: append([]string{}, r.Wits...)}}
+	return r
+}
+
 // ---------------------------------------------------------------------------- entry point
 
 func TestVerifC09(t *testing.T) {
@@ -1545,6 +1619,8 @@ func TestVerifC09(t *testing.T) {
 			runNo++
 			c09ExecRun(t, wr, rw, runNo, c09RandomRun(rng, win, H))
 		}
+		runNo++
+		c09ExecRun(t, wr, rw, runNo, c09DupRun(k, H))
 	}
 	wr.f.Close()
 	t.Logf("C09 harness: %d case events, %d run events", wc.n, wr.n)
